@@ -395,7 +395,7 @@ _NEUTRAL_BASES = {
     "neutral-r15": ["C01", "C02", "C03", "C04", "C05", "C06", "C09", "C10", "C11", "C12", "C16"],
     "neutral-r17": ["C13", "C14", "C09"],
     "neutral-r18": ["C04", "C08"],
-    "neutral-r19": ["C14", "C09"],
+    "neutral-r19": ["C14", "C09", "C15"],
     "neutral-r20": ["C15", "C16", "C17"],
     "neutral-r21": ["C15", "C16", "C18", "C19"],
     "neutral-r22": ["C05", "C06", "C13", "C15"],
@@ -500,7 +500,12 @@ MUTANTS.setdefault("C18", []).append(mut("sell-row-written-as-buy", "SELL rows a
 
 CFG_RS = "crates/cgt-core/src/config.rs"
 _CROSS7 = {
-    "C15": [on("neutral-r22", mut("r22+guard-wrong-variant", "overwrite guard tests the requested path, not the derived one",
+    "C15": [on("neutral-r19", mut("r19+price-must-be-positive", "table-driven validator demands a positive price",
+                                  [(VALID, "            FieldCheck::non_negative(\"price\", price),", "            FieldCheck::positive(\"price\", price.amount),")], ["R5:validate:Buy.price", "R5:validate:Sell.price"])),
+            on("neutral-r19", mut("r19+judge-accepts-zero-quantity", "the judge lets a zero through for positive fields",
+                                  [(VALID, "            (Ordering::Equal, Sign::Positive) => Some(format!(\"{action} with zero {label}\")),\n            (Ordering::Equal, Sign::NonNegative) | (Ordering::Greater, _) => None,",
+                                    "            (Ordering::Equal, _) | (Ordering::Greater, _) => None,")], ["R5:validate:"])),
+            on("neutral-r22", mut("r22+guard-wrong-variant", "overwrite guard tests the requested path, not the derived one",
                                   [(MAIN, "            PdfDestination::Derived(path) if path.exists() => bail!(", "            PdfDestination::Requested(path) if path.exists() => bail!(")], ["R4:main:pdf-overwrite-guard"])),
             on("neutral-r21", mut("r21+count-twice", "a skipped row is counted twice on one path",
                                   [(SCHWAB, "        self.transactions.push(CgtTransaction::Comment(comment));\n        self.skipped_count += 1;", "        self.transactions.push(CgtTransaction::Comment(comment));\n        self.skipped_count += 1;\n        self.skipped_count += 1;")], ["R2:"]))],
